@@ -35,6 +35,7 @@
 #define SAMPLES_PER_DATA_MIN            (SAMPLE_DECIMATE_FACTOR_MIN)
 #define ENTRIES_PER_SUMMARY_MIN         (SAMPLE_DECIMATE_FACTOR_MIN)
 #define SUMMARY_DECIMATE_FACTOR_MIN     (SAMPLE_DECIMATE_FACTOR_MIN)
+#define TS_DECIMATE_FACTOR_MIN          (2U)
 #define SIGNAL_DEF_PARAM_MAX            (1U << 24)  // keeps the alignment arithmetic far from uint32_t wrap
 #define F64_BUF_LENGTH_MIN (1 << 16)
 #define SIGNAL_MASK  (0x0fff)
@@ -217,6 +218,9 @@ static void signal_def_defaults(struct jls_signal_def_s * def) {
     d = &SIGNAL_32_DEFAULTS;
     SIGNAL_DEF_DEFAULT(annotation_decimate_factor);
     SIGNAL_DEF_DEFAULT(utc_decimate_factor);
+    // an index that holds a single entry would be committed, level after level, with every entry
+    def->annotation_decimate_factor = u32_max(def->annotation_decimate_factor, TS_DECIMATE_FACTOR_MIN);
+    def->utc_decimate_factor = u32_max(def->utc_decimate_factor, TS_DECIMATE_FACTOR_MIN);
 }
 
 int32_t jls_core_signal_def_align(struct jls_signal_def_s * def) {
